@@ -441,8 +441,19 @@ func checkLedger(led *ledger, node int, d map[string]dumpEntry, tag string) {
 
 // quiesce heals, restarts, waits for every node, puts a barrier write through every node, dumps and compares.
 func quiesce(c *cluster.Cluster, led *ledger, tag string, limit time.Duration) (ok bool, why string) {
-	c.Heal()
+	return quiesceOn(c, led, tag, limit, nil)
+}
+
+// quiesceOn leaves out the nodes in skip (members removed from the cluster, spare nodes never added).
+func quiesceOn(c *cluster.Cluster, led *ledger, tag string, limit time.Duration, skip map[int]bool) (ok bool, why string) {
+	var nodes []*cluster.Node
 	for _, nd := range c.Nodes {
+		if !skip[nd.ID] {
+			nodes = append(nodes, nd)
+		}
+	}
+	c.Heal()
+	for _, nd := range nodes {
 		if nd.Srv == nil || nd.Srv.Exited() {
 			if err := c.StartNode(nd.ID); err != nil {
 				report(witness{Kind: "restart-failed", Detail: fmt.Sprintf("%s: node %d does not start with its own intact files: %v\n%s", tag, nd.ID, err, tailN(c.NodeLog(nd.ID, 4000), 1500)), Sig: "node-does-not-restart|" + tag})
@@ -450,9 +461,26 @@ func quiesce(c *cluster.Cluster, led *ledger, tag string, limit time.Duration) (
 			}
 		}
 	}
-	if !c.WaitAllWritable(limit) {
-		for _, nd := range c.Nodes {
-			if nd.Srv.Exited() {
+	allWritable := true
+	for attempt := 0; attempt < 4; attempt++ {
+		allWritable = true
+		bind := false
+		for _, nd := range nodes {
+			if !c.WaitWritable(nd.ID, limit) {
+				allWritable = false
+				bind = nd.Srv != nil && nd.Srv.Exited() && nd.Srv.BindError()
+				break
+			}
+		}
+		if allWritable || !bind {
+			break
+		}
+		// a listener could not bind (the environment, not the node): the cluster harness starts it again
+		time.Sleep(time.Second)
+	}
+	if !allWritable {
+		for _, nd := range nodes {
+			if diedOnItsOwn(nd) {
 				report(witness{Kind: "node-exit", Detail: fmt.Sprintf("%s: node %d exited during recovery: %s\n%s", tag, nd.ID, nd.Srv.CrashLine(), tailN(c.NodeLog(nd.ID, 4000), 1500)), Sig: "node-exited-on-recovery|" + tag + "|" + crashClass(nd.Srv.CrashLine()+c.NodeLog(nd.ID, 4000))})
 				return false, "node exited"
 			}
@@ -460,7 +488,7 @@ func quiesce(c *cluster.Cluster, led *ledger, tag string, limit time.Duration) (
 		return false, "cluster did not serve writes within the bound"
 	}
 	// barrier: one write acknowledged through every node, so each node has applied everything acknowledged before
-	for _, nd := range c.Nodes {
+	for _, nd := range nodes {
 		cl, err := respc.Dial(nd.Addr(), 5*time.Second)
 		if err != nil {
 			return false, "barrier dial failed"
@@ -474,7 +502,7 @@ func quiesce(c *cluster.Cluster, led *ledger, tag string, limit time.Duration) (
 	}
 	time.Sleep(300 * time.Millisecond)
 	var first string
-	for _, nd := range c.Nodes {
+	for _, nd := range nodes {
 		d, canon, err := dumpNode(nd.Addr())
 		if err != nil {
 			return false, "dump failed: " + err.Error()
@@ -504,6 +532,11 @@ func clusterDiag(c *cluster.Cluster) string {
 		fmt.Fprintf(&b, "; node %d %s: %s", nd.ID, state, strings.Join(lines, " / "))
 	}
 	return b.String()
+}
+
+// diedOnItsOwn: the process ended, and not because a listener found its port taken.
+func diedOnItsOwn(nd *cluster.Node) bool {
+	return nd.Srv != nil && nd.Srv.Exited() && !nd.Srv.BindError()
 }
 
 func crashClass(s string) string {
@@ -687,7 +720,7 @@ func scenarioC07(o *common.Opts, idx int, st *stats, n int, race bool) string {
 		st.nemesis++
 		// a node that exits on its own is a violation
 		for _, nd := range c.Nodes {
-			if nd.Srv != nil && nd.Srv.Exited() && name != "kill-restart" {
+			if diedOnItsOwn(nd) && name != "kill-restart" {
 				report(witness{Kind: "node-exit", Detail: fmt.Sprintf("node %d exited although the nemesis did not kill it (%s): %s\n%s", nd.ID, name, nd.Srv.CrashLine(), tailN(c.NodeLog(nd.ID, 6000), 2000)), Sig: "node-exited|" + crashClass(nd.Srv.CrashLine()+c.NodeLog(nd.ID, 6000))})
 			}
 		}
@@ -846,7 +879,7 @@ func scenarioC08(o *common.Opts, idx int, cs c08case, st *stats) string {
 	}
 	// any other node exiting on its own (e.g. while taking a snapshot)
 	for _, nd := range c.Nodes {
-		if nd.ID != cs.victim && nd.Srv.Exited() {
+		if nd.ID != cs.victim && diedOnItsOwn(nd) {
 			report(witness{Kind: "node-exit", Detail: fmt.Sprintf("%s: node %d exited on its own: %s\n%s", tag, nd.ID, nd.Srv.CrashLine(), tailN(c.NodeLog(nd.ID, 6000), 2500)),
 				Sig: "node-exited|" + cs.regime + "|" + crashClass(nd.Srv.CrashLine()+c.NodeLog(nd.ID, 8000))})
 		}
@@ -967,6 +1000,7 @@ func main() {
 				}(k)
 			}
 		}
+		extra("membership", o.Pick(2, 6), func(idx int, local *stats) string { return scenarioMembership(o, idx, local) })
 		extra("votes", o.Pick(3, 9), func(idx int, local *stats) string { return scenarioVotes(o, idx, local) })
 		extra("storm", o.Pick(1, 3), func(idx int, local *stats) string { return scenarioStorm(o, idx, local, "c07") })
 		wg.Add(1)
@@ -1136,11 +1170,12 @@ func main() {
 			"scenario_kinds":           st.kinds,
 			"failpoints_fired":         st.crashPoints,
 			"node_restarts":            st.restarts,
-			"leader_announcements_read_from_raft_logs": st.leaderTerms,
-			"histories_decided_by_porcupine":           st.decided,
-			"histories_porcupine_unknown":              st.unknown,
-			"known_finding_hits":                       knownHits,
-			"violation_samples":                        vs,
+			"leader_announcements_read_from_raft_logs":        st.leaderTerms,
+			"nodes_started_again_after_a_listener_bind_error": cluster.BindRestarts.Load(),
+			"histories_decided_by_porcupine":                  st.decided,
+			"histories_porcupine_unknown":                     st.unknown,
+			"known_finding_hits":                              knownHits,
+			"violation_samples":                               vs,
 		},
 		Assumptions: []string{"safety only: a client left without reply (dropped proposal) is an open operation, not a violation", "process crashes (SIGKILL) on a filesystem that keeps what was written; power-loss semantics of the log files are C16's subject",
 			"a cluster that does not serve writes within 90 s after healing is inconclusive, not a violation"}}
